@@ -208,25 +208,42 @@ pub fn run(a: &Args, acc: &mut Acc) {
         let (ctx, w) = setup(treasury);
         let m = M { admin: 0, nominee: None, not_before: 0 };
         let mut nodes = 0u64;
+        // the first two symbols partition the work over the shards
+        let mut job = 0u64;
         for first in 0..NSYM {
-            if (first as u64) % nshards != shard {
+            let mut w1 = w.clone();
+            let mut m1 = m.clone();
+            if let Some(e) = exec_sym(&ctx, &mut w1, &mut m1, first) {
+                if shard == 0 {
+                    viol.push((treasury, vec![first], e));
+                }
                 continue;
             }
-            let mut w2 = w.clone();
-            let mut m2 = m.clone();
-            let mut path = vec![first];
-            let mut v = vec![];
-            match exec_sym(&ctx, &mut w2, &mut m2, first) {
-                Some(e) => v.push((path.clone(), e)),
-                None => dfs(&ctx, &w2, &m2, 1, depth, &mut path, acc, &mut v, &mut nodes),
+            if depth < 2 {
+                continue;
             }
-            for (p, e) in v {
-                viol.push((treasury, p, e));
+            for second in 0..NSYM {
+                job += 1;
+                if job % nshards != shard {
+                    continue;
+                }
+                let mut w2 = w1.clone();
+                let mut m2 = m1.clone();
+                let mut path = vec![first, second];
+                let mut v = vec![];
+                nodes += 1;
+                match exec_sym(&ctx, &mut w2, &mut m2, second) {
+                    Some(e) => v.push((path.clone(), e)),
+                    None => dfs(&ctx, &w2, &m2, 2, depth, &mut path, acc, &mut v, &mut nodes),
+                }
+                for (p, e) in v {
+                    viol.push((treasury, p, e));
+                }
             }
         }
         acc.add("c12:nodes", nodes);
     }
-    acc.notes.push(format!("exhaustive over all {NSYM}^{depth} sequences of length {depth} per contract (sharded by first symbol)"));
+    acc.notes.push(format!("exhaustive over all {NSYM}^{depth} sequences of length {depth} per contract (sharded by the first two symbols)"));
     // random long sequences, biased to the deadline
     let mut rng = Rng::new(seed ^ (shard + 1).wrapping_mul(0x9E3779B97F4A7C15) ^ 0xC12);
     for _ in 0..random {
